@@ -32,6 +32,12 @@ func gen(t *rapid.T) Case {
 	if rapid.Bool().Draw(t, "stormy") {
 		simref.Stormy(t, c.Rain)
 	}
+	// boundary of the net-rainfall / net-evaporation split: days with rainfall exactly equal to PET
+	for i := range c.Rain {
+		if rapid.IntRange(0, 9).Draw(t, "equalDay") == 0 {
+			c.PET[i] = c.Rain[i]
+		}
+	}
 	if rapid.Bool().Draw(t, "warm") {
 		w := simref.DrawInputs(t, "GR4J", cell, rapid.IntRange(1, 30).Draw(t, "warmT"))
 		c.WarmRain, c.WarmPET = w[0], w[1]
@@ -68,12 +74,11 @@ func check(c Case) (r pbt.Result) {
 	// (A whole-run comparison of two independent implementations is not meaningful here: with a strongly
 	// negative exchange coefficient and a small routing store the map R -> R' is expanding, and round-off
 	// differences grow to 1e-4 relative within 100-200 steps. The equations are compared step by step.)
-	_ = out
-	_ = fin
 	// One-step comparison: from the code's own state after every step, one step of the reference must
 	// give the code's next output and next state. No round-off is carried from step to step (the routing
 	// store with a strongly negative exchange and a small capacity amplifies it), so this is tight.
 	stCode := append([]float64(nil), st...)
+	var stepOut []float64
 	for i := range c.Rain {
 		o1, next := simref.Run1("GR4J", cell, [][]float64{c.Rain[i : i+1], c.PET[i : i+1]}, append([]float64(nil), stCode...))
 		r1 := simref.NewGR4JRef(c.X1, c.X2, c.X3, c.X4)
@@ -96,9 +101,32 @@ func check(c Case) (r pbt.Result) {
 				return
 			}
 		}
+		stepOut = append(stepOut, o1[0][0])
 		stCode = next
 	}
+	// the uninterrupted Run over the whole series must be the iteration of that one-step map (same code,
+	// same arithmetic: nothing may be carried from day to day except through the state vector)
+	for i := range stepOut {
+		if !(out[0][i] == stepOut[i] || math.Abs(out[0][i]-stepOut[i]) <= 1e-12*math.Max(math.Abs(out[0][i]), math.Abs(stepOut[i]))) {
+			r.Failf("GR4J x=(%g,%g,%g,%g): runoff[%d] = %.17g in one Run over the series but %.17g when the same days are run one at a time from the returned states (rain %v pet %v, previous day rain %v pet %v)",
+				c.X1, c.X2, c.X3, c.X4, i, out[0][i], stepOut[i], c.Rain[i], c.PET[i], prevOf(c.Rain, i), prevOf(c.PET, i))
+			return
+		}
+	}
+	for j := range stCode {
+		if !(fin[j] == stCode[j] || math.Abs(fin[j]-stCode[j]) <= 1e-12*math.Max(math.Abs(fin[j]), math.Abs(stCode[j]))) {
+			r.Failf("GR4J x=(%g,%g,%g,%g): final state %d = %v in one Run, %v when run one day at a time", c.X1, c.X2, c.X3, c.X4, j, fin[j], stCode[j])
+			return
+		}
+	}
 	return
+}
+
+func prevOf(v []float64, i int) interface{} {
+	if i == 0 {
+		return "-"
+	}
+	return v[i-1]
 }
 
 func TestAgainstPublishedEquations(t *testing.T) { pbt.Run(t, gen, check) }
